@@ -88,6 +88,9 @@ pub enum GenomeKind {
     Vector,
     Plushy,
     Bits,
+    /// Plushy parents whose even positions are close markers (which carry no identity: an output close
+    /// is attributed to the earliest parent close not yet passed)
+    PlushyClose,
 }
 
 /// run UMAD on a parent of length l; output as Gene sequence (Bits: only the length is meaningful)
@@ -125,6 +128,32 @@ pub fn umad_once(gk: GenomeKind, kind: UmadKind, a: f64, d: f64, g: usize, l: us
                 .collect();
             (genes, gen.serial.get())
         }
+        GenomeKind::PlushyClose => {
+            let m = mk_umad(kind, a, d, &gen);
+            let parent: Plushy = (0..l).map(|i| if i % 2 == 0 { PushGene::Close } else { PushGene::Instruction(PushInstruction::push_int(i as i64)) }).collect();
+            let out = (&m).mutate(parent, &mut rng).unwrap();
+            let genes = out
+                .get_genes()
+                .iter()
+                .map(|pg| match pg {
+                    // anonymous: attributed to a parent close by the judge (`resolve_closes`)
+                    PushGene::Close => Gene::Old(ANON),
+                    PushGene::Instruction(PushInstruction::IntInstruction(ii)) => {
+                        let s = format!("{ii}");
+                        let v: i64 = s.trim_start_matches("Push(").trim_end_matches(')').parse().unwrap_or(-1);
+                        if v >= 1000 {
+                            Gene::New { serial: ((v - 1000) / 10) as usize, choice: ((v - 1000) % 10) as usize }
+                        } else if v >= 0 {
+                            Gene::Old(v as usize)
+                        } else {
+                            Gene::New { serial: usize::MAX, choice: usize::MAX }
+                        }
+                    }
+                    _ => Gene::New { serial: usize::MAX, choice: usize::MAX },
+                })
+                .collect();
+            (genes, gen.serial.get())
+        }
         GenomeKind::Bits => {
             let m = mk_umad(kind, a, d, &gen);
             let parent = Bitstring { bits: vec![true; l] };
@@ -133,6 +162,55 @@ pub fn umad_once(gk: GenomeKind, kind: UmadKind, a: f64, d: f64, g: usize, l: us
             ((0..out.bits.len()).map(|_| Gene::Old(usize::MAX)).collect(), gen.serial.get())
         }
     })
+}
+
+/// marker of an output close gene that has not been attributed to a parent position yet
+pub const ANON: usize = usize::MAX - 7;
+
+/// Close markers carry no identity.  The output is structurally valid iff *some* attribution of its
+/// closes to the parent's closes (the even positions), increasing from left to right, passes the
+/// structural oracle; the first failure is reported if none does.
+pub fn resolve_closes(out: &[Gene], produced: usize, l: usize, kind: UmadKind, a: (u32, u32), d: (u32, u32), g: usize) -> Option<(&'static str, String)> {
+    let slots: Vec<usize> = out.iter().enumerate().filter(|(_, x)| **x == Gene::Old(ANON)).map(|(i, _)| i).collect();
+    if slots.is_empty() {
+        return umad_structure(out, produced, l, kind, a, d, g);
+    }
+    let evens: Vec<usize> = (0..l).filter(|i| i % 2 == 0).collect();
+    if slots.len() > evens.len() {
+        return Some(("foreign-gene", format!("output has {} close markers, the parent only {}", slots.len(), evens.len())));
+    }
+    let mut first_err: Option<(&'static str, String)> = None;
+    // all increasing choices of slots.len() parent closes
+    let mut pick: Vec<usize> = (0..slots.len()).collect();
+    loop {
+        let mut cand: Vec<Gene> = out.to_vec();
+        for (k, s) in slots.iter().enumerate() {
+            cand[*s] = Gene::Old(evens[pick[k]]);
+        }
+        match umad_structure(&cand, produced, l, kind, a, d, g) {
+            None => return None,
+            Some(e) => {
+                if first_err.is_none() {
+                    first_err = Some((e.0, format!("{} (close markers shown as attributed to the earliest parent closes)", e.1)));
+                }
+            }
+        }
+        // next combination
+        let mut i = slots.len();
+        loop {
+            if i == 0 {
+                return first_err;
+            }
+            i -= 1;
+            if pick[i] < evens.len() - (slots.len() - i) {
+                pick[i] += 1;
+                for j in i + 1..slots.len() {
+                    pick[j] = pick[j - 1] + 1;
+                }
+                break;
+            }
+        }
+    }
 }
 
 /// structural oracle for one UMAD output
@@ -243,6 +321,8 @@ pub fn umad_case(gk: GenomeKind, kind: UmadKind, a: (u32, u32), d: (u32, u32), g
     let alpha = alphabet_of(m);
     let mut bad: Option<(String, String)> = None;
     let mut outs: BTreeSet<Vec<Gene>> = BTreeSet::new();
+    let mut kept = vec![false; l];
+    let mut gone = vec![false; l];
     let st = explore(
         |env| umad_once(gk, kind, rate(a), rate(d), g, l, env, alpha, via),
         |_, _, r| match r {
@@ -270,9 +350,37 @@ pub fn umad_case(gk: GenomeKind, kind: UmadKind, a: (u32, u32), d: (u32, u32), g
                     outs.insert(out);
                     return;
                 }
-                if let Some((k, w)) = umad_structure(&out, produced, l, kind, a, d, g) {
+                if let Some((k, w)) = resolve_closes(&out, produced, l, kind, a, d, g) {
                     if bad.is_none() {
                         bad = Some((format!("umad/{k}"), format!("{label}: {w}")));
+                    }
+                }
+                if gk == GenomeKind::PlushyClose {
+                    // instruction genes by identity; close markers by count (all kept / not all kept)
+                    for i in (0..l).filter(|i| i % 2 == 1) {
+                        if out.contains(&Gene::Old(i)) {
+                            kept[i] = true;
+                        } else {
+                            gone[i] = true;
+                        }
+                    }
+                    let closes = out.iter().filter(|x| **x == Gene::Old(ANON)).count();
+                    let parent_closes = l.div_ceil(2);
+                    for i in (0..l).filter(|i| i % 2 == 0) {
+                        if closes == parent_closes {
+                            kept[i] = true;
+                        }
+                        if closes == 0 {
+                            gone[i] = true;
+                        }
+                    }
+                } else {
+                    for i in 0..l {
+                        if out.contains(&Gene::Old(i)) {
+                            kept[i] = true;
+                        } else {
+                            gone[i] = true;
+                        }
                     }
                 }
                 outs.insert(out);
@@ -280,6 +388,15 @@ pub fn umad_case(gk: GenomeKind, kind: UmadKind, a: (u32, u32), d: (u32, u32), g
         },
         20_000_000,
     );
+    // support: with a deletion rate strictly between 0 and 1 every parent gene survives on some stream
+    // and is deleted on some stream
+    if bad.is_none() && gk != GenomeKind::Bits && d.0 > 0 && d.0 < d.1 && st.diverged.is_none() && !st.capped {
+        let never_kept: Vec<usize> = (0..l).filter(|i| !kept[*i]).collect();
+        let never_gone: Vec<usize> = (0..l).filter(|i| !gone[*i]).collect();
+        if !never_kept.is_empty() || !never_gone.is_empty() {
+            bad = Some(("umad/support".into(), format!("{label}: over all streams parent positions {never_kept:?} never survive and positions {never_gone:?} are never deleted")));
+        }
+    }
     if let Some(dv) = &st.diverged {
         return (st.leaves, st.choice_points, Some(("umad/nondeterministic".into(), format!("{label}: {dv}"))), outs.len());
     }
@@ -488,7 +605,7 @@ pub fn cases(quick: bool) -> Vec<Case> {
             }
         }
     }
-    for gk in [GenomeKind::Vector, GenomeKind::Plushy, GenomeKind::Bits] {
+    for gk in [GenomeKind::Vector, GenomeKind::Plushy, GenomeKind::PlushyClose, GenomeKind::Bits] {
         for l in 0..=max_l {
             for a in &rates {
                 for d in &rates {
@@ -560,7 +677,7 @@ pub fn run(run: &mut Run) {
     run.states = cs.len() as u64;
     run.traces_validated = run.evaluations;
     run.distinct_nontrivial = nontrivial;
-    run.rule = "WithRate / WithOneOverLength on Vec<TagBit>, Vector<TagBit>, Bitstring and through Mutate; Umad (new / new_with_empty_rate / new_without_empty) on Vector<Gene>, Plushy and Bitstring, through &, by value and through Mutate; all parent lengths 0..L, all lattice rates, all grid word sequences, and (lengths <= 3 for flips, <= 2 for UMAD) all sequences over the grid plus the extreme words 0 and all-ones; plus UMAD on long parents (64..257, thorough 31..300) under every stream with at most 1 (2) non-default words; structural oracle on every leaf (positions preserved, subsequence order, at most one insertion per parent position, provenance of new genes, boundary rates). non-trivial = scenarios with more than one distinct output".into();
+    run.rule = "WithRate / WithOneOverLength on Vec<TagBit>, Vector<TagBit>, Bitstring and through Mutate; Umad (new / new_with_empty_rate / new_without_empty) on Vector<Gene>, Plushy (instruction genes, and parents whose even positions are close markers) and Bitstring, through &, by value and through Mutate; all parent lengths 0..L, all lattice rates, all grid word sequences, and (lengths <= 3 for flips, <= 2 for UMAD) all sequences over the grid plus the extreme words 0 and all-ones; plus UMAD on long parents (64..257, thorough 31..300) under every stream with at most 1 (2) non-default words; structural oracle on every leaf (positions preserved, subsequence order, at most one insertion per parent position, provenance of new genes, boundary rates). non-trivial = scenarios with more than one distinct output".into();
     run.bound("max_parent_length", json!(if run.quick() { 3 } else { 4 }));
     run.bound("rates", json!(if run.quick() { "{0, 1/2, 1, 2}" } else { "{0, 1/4, 1/2, 3/4, 1, 2}" }));
     run.assumptions = vec!["structure is rate independent: lattice rates reach both outcomes of every coin".into()];
@@ -581,11 +698,11 @@ pub fn replay(v: &Value) -> bool {
             Case::Flip(fk, v["one_over_length"].as_bool().unwrap_or(false), pair(&v["rate"]), l, m)
         }
         Some("umad-long") => {
-            let gk = [GenomeKind::Vector, GenomeKind::Plushy].into_iter().find(|k| Some(format!("{k:?}").as_str()) == v["genome"].as_str()).unwrap_or(GenomeKind::Vector);
+            let gk = [GenomeKind::Vector, GenomeKind::Plushy, GenomeKind::PlushyClose].into_iter().find(|k| Some(format!("{k:?}").as_str()) == v["genome"].as_str()).unwrap_or(GenomeKind::Vector);
             Case::UmadLong(gk, pair(&v["a"]), pair(&v["d"]), l, v["dev"].as_u64().unwrap_or(1) as usize)
         }
         Some("umad") => {
-            let gk = [GenomeKind::Vector, GenomeKind::Plushy, GenomeKind::Bits]
+            let gk = [GenomeKind::Vector, GenomeKind::Plushy, GenomeKind::PlushyClose, GenomeKind::Bits]
                 .into_iter()
                 .find(|k| Some(format!("{k:?}").as_str()) == v["genome"].as_str())
                 .unwrap_or(GenomeKind::Vector);
